@@ -35,6 +35,8 @@ type Options struct {
 	Seed     int
 	NoReplay bool
 	Keep     bool
+	Frame    string
+	Show     string
 	NilAssumed bool
 }
 
@@ -58,7 +60,10 @@ func main() {
 	flag.IntVar(&o.Seed, "seed", 0, "seed (unused by proofs; recorded in evidence)")
 	flag.BoolVar(&o.NoReplay, "noreplay", false, "do not replay counterexamples")
 	flag.BoolVar(&o.Keep, "keep", false, "keep the SMT files of discharged obligations")
+	flag.StringVar(&o.Frame, "frame", "", "print the inferred frame of a function and exit")
+	flag.StringVar(&o.Show, "show", "", "debug: ;-separated spec expressions evaluated at exit and shown in counterexamples")
 	flag.Parse()
+	showExprs = o.Show
 
 	start := time.Now()
 	var specFiles []string
@@ -85,6 +90,19 @@ func main() {
 			}
 			sort.Strings(ks)
 			fmt.Println(strings.Join(ks, "\n"))
+		}
+		return
+	}
+	if o.Frame != "" {
+		fn := eng.funcs[o.Frame]
+		if fn == nil {
+			fmt.Println("no such function")
+			return
+		}
+		fs := eng.frameOf(fn)
+		fmt.Println("all:", fs.all)
+		for _, k := range sortedKeys(fs.keys) {
+			fmt.Println("  ", k)
 		}
 		return
 	}
@@ -214,3 +232,5 @@ func solveAll(eng *Engine, o *Options, results []*FuncResult) {
 }
 
 var _ = ssa.NaiveForm
+
+var showExprs string
